@@ -15,6 +15,7 @@ import (
 	"context"
 	"fmt"
 	"math/rand"
+	"os"
 	"strings"
 	"time"
 
@@ -31,7 +32,7 @@ import (
 )
 
 func Spec() *evid.Spec {
-	return &evid.Spec{
+	sp := &evid.Spec{
 		ID:    "C16",
 		Level: "exploration",
 		Rule: "handlers lane: seed-determined schedules over 3-5 epochs (4/6/8 slots per epoch, 2-4 epochs per sync period) that start 1-2 epochs before a sync-committee period " +
@@ -54,6 +55,19 @@ func Spec() *evid.Spec {
 			{Name: "handlers", Children: evid.Const(16, 32), Cases: evid.Const(320, 4700), TimeoutS: evid.Const(240, 3000), Run: runHandlers},
 		},
 	}
+	// The scheduler lane needs the quiescence / release hooks of operator/duties/scheduler_verif.go (build tag verif, proposed
+	// in hooks/scheduler_verif.go.txt). It registers itself only when the tree under test has them.
+	if schedulerHooksPresent() {
+		sp.Rule += "; scheduler lane (-race): the whole duties.Scheduler (Start, fan-out, HandleHeadEvent, ExecuteDuties) with the same world; reorg notices are produced by the real " +
+			"HandleHeadEvent from head events whose dependent roots the harness changes; executions are released per slot (VerifReleaseSlot) and must match the synchronous dispatches one to one"
+		// under the race detector whenever the driver was given a -race build of this binary (C16 listed in lib/race_lanes.txt)
+		race := false
+		for _, a := range os.Args {
+			race = race || a == "-racebin" || a == "--racebin"
+		}
+		sp.Lanes = append(sp.Lanes, evid.Lane{Name: "scheduler", Race: race, Children: evid.Const(16, 32), Cases: evid.Const(40, 600), TimeoutS: evid.Const(300, 3000), Run: runScheduler})
+	}
+	return sp
 }
 
 const watchdog = 30 * time.Second
@@ -134,9 +148,9 @@ type run struct {
 	hs  [3]*hctl
 
 	// everything below is guarded by w.mu
-	log      []string
-	seq      []string // event lines only (interleaving identity)
-	cur      struct {
+	log []string
+	seq []string // event lines only (interleaving identity)
+	cur struct {
 		kind   evKind
 		r      role
 		slot   uint64
@@ -148,6 +162,8 @@ type run struct {
 	dead      bool
 	cnt       map[string]int64
 	anomalies int
+
+	sched *schedCtl // scheduler lane only
 
 	// diagnostics only (never part of a verdict): when did the duty store stop holding what the last fetch returned
 	store   *dutystore.Store
@@ -471,6 +487,9 @@ func (rn *run) stuck(h *hctl, what string) {
 
 // barrier: a no-op ReorgEvent{} on the unbuffered reorg channel; accepted only from inside the handler's select.
 func (rn *run) barrier(h *hctl) bool {
+	if rn.sched != nil {
+		return rn.schedBarrier()
+	}
 	if !sendReorg(h.reorg, duties.ReorgEvent{}) {
 		rn.stuck(h, "the barrier")
 		return false
@@ -483,7 +502,6 @@ func (rn *run) addCause(h *hctl, tag string) { // w.mu not held
 	h.causes = append(h.causes, cause{rn.w.curEvent, tag})
 	rn.w.mu.Unlock()
 }
-
 
 // probe is DIAGNOSTIC ONLY: after an event of handler h it looks into the duty store (which the harness created) and
 // notes the event after which the store no longer holds everything the latest successful fetch of an epoch / period
@@ -569,6 +587,10 @@ func (rn *run) deliverTick(h *hctl, s uint64) {
 		obl, bnDuties = rn.expected(h.r, s)
 	}
 	failBefore := w.nFetchFail[h.r]
+	if rn.sched != nil {
+		// index-change notices reach the handlers asynchronously there: attribute a drop seen now to that (diagnostic only)
+		rn.probe(h, "async-"+lastNotice(h, 0, w.curEvent))
+	}
 	w.mu.Unlock()
 	line := fmt.Sprintf("tick %s slot %d", roleName[h.r], s)
 	if !onTime {
@@ -624,7 +646,6 @@ func (rn *run) deliverTick(h *hctl, s uint64) {
 				o.Key.T.String(), o.Key.V, s, s, w.curEvent, roleName[h.r], o.F.X, o.F.Ver, o.F.Event))
 	}
 }
-
 
 // position classifies where a notice reaches handler h relative to its tick of the current clock slot.
 func (rn *run) position(h *hctl, kind string) string {
@@ -765,10 +786,20 @@ func (rn *run) worldReorg(mode int) { // mode: -1 random, 0 current root only, 1
 	if syncToo {
 		line += fmt.Sprintf(", new sync-committee assignment for period %d", p+1)
 	}
-	rn.begin(evWorld, 0, now, false, line)
-	for _, h := range rn.hs {
-		for _, n := range notices {
-			h.pReorg = append(h.pReorg, pendingReorg{n, e})
+	if sc := rn.sched; sc != nil {
+		// scheduler lane: the chain's dependent roots change; what the handlers are told is HandleHeadEvent's business
+		sc.rver[e-1]++
+		if deep {
+			sc.rver[e-2]++
+		}
+		line = strings.Split(line, " (")[0]
+		rn.begin(evWorld, 0, now, false, line)
+	} else {
+		rn.begin(evWorld, 0, now, false, line)
+		for _, h := range rn.hs {
+			for _, n := range notices {
+				h.pReorg = append(h.pReorg, pendingReorg{n, e})
+			}
 		}
 	}
 	w.mu.Lock()
@@ -808,7 +839,9 @@ func (rn *run) worldSetChange(scripted bool) {
 	rn.cnt["world_set_changes"]++
 	w.mu.Unlock()
 	rn.begin(evWorld, 0, rn.net.now.Load(), false, line)
-	if notify {
+	if notify && rn.sched != nil {
+		rn.sched.pIdx++
+	} else if notify {
 		for _, h := range rn.hs {
 			h.pIdx++
 		}
